@@ -127,6 +127,12 @@ partial def encValue : Value → String
   | .map kvs => "(map" ++ String.join (kvs.map (fun (k, v) => " (" ++ hex k ++ " " ++ encValue v ++ ")")) ++ ")"
   | .none => "(none)"
 
+def decTy : String → Option Ty
+  | "str" => some .str | "int" => some .int | "float" => some .float | "dec" => some .dec | "bool" => some .bool
+  | "datetime" => some .dateTime | "duration" => some .duration | "vec" => some .vec | "map" => some .map
+  | "none" => some .none
+  | _ => none
+
 def decUnOp : String → Option UnOp
   | "not" => some .not | "neg" => some .neg | "some" => some .some | "isnone" => some .isNone
   | "toint" => some .toInt | "tofloat" => some .toFloat | "todec" => some .toDec
